@@ -79,6 +79,14 @@ CHECK_DEADLOCK FALSE
             jobs.append({"fe": fe, "channels": rnd.choice([1, 2]), "bps": rnd.choice([8, 16]), "frames": frames, "declared": True,
                          "declared_frames": decl, "chunk_frames": chunk, "every_byte": True, "signal": rnd.choice(["walk", "noise", "sine"]),
                          "seed": rnd.randint(1, 9999), "opts": opts})
+    # declared totals far beyond what is ever written (a recording that was planned to be long): 2^32 and its neighbourhood, 2^36 - 1
+    for fe in ("byte-le", "sample", "channel"):
+        for decl in (1 << 32, (1 << 32) + 5000, (1 << 32) - 1, 3 * (1 << 32) + 8209, (1 << 32) + 16, (1 << 36) - 1, (1 << 31) + 40):
+            ch = rnd.choice([1, 2])
+            if fe == "byte-le" and decl * ch * 2 >= (1 << 36) * 8:
+                continue
+            jobs.append({"fe": fe, "channels": ch, "bps": 16, "frames": 48, "declared": True, "declared_frames": decl, "chunk_frames": 48,
+                         "every_byte": False, "signal": "walk", "seed": rnd.randint(1, 9999), "opts": {"block_size": 16, "padding": -1, "seektable": "none"}})
     # larger inputs with default padding / bigger blocks: cuts at every underlying write call
     for i in range(10 if t == "quick" else 600):
         bs = rnd.choice([16, 64, 256, 1152, 4096])
